@@ -40,6 +40,74 @@ PANIC_OK = {
 }
 
 
+# position-indexed accesses of the compile phase accepted without a dominating length test: (fn, element kind) -> reason
+INDEX_OK = {
+    ('compile', 'OverloadWithForwardReq'): 'get_item returns Overload(v) only for a non-empty v (it is built by pushing at least one overload of the name) and more than one was rejected just above',
+    ('compile', 'XCompoundFieldSpec'): 'the index comes from spec.indices of the same spec (name -> position table built together with fields)',
+    ('forward_ref', 'ForwardRef'): 'ref_idx was produced as forwards.len() when the forward reference was pushed in the scope at that height',
+    ('get_item', 'Cell'): 'the variables map stores only indices returned by cells.ipush of the same scope',
+    ('type_of', 'XType'): 'Member(idx) on a tuple is built only by compile after idx < types.len() (TupleIndexOutOfBounds otherwise)',
+    ('type_of', 'XCompoundFieldSpec'): 'Member / MemberValue / MemberOptValue indices are produced by spec.find on the same compound spec in compile',
+    ('type_of', 'Cell'): 'XExpr::Value(cell_idx) is only built from indices returned by cells.ipush / get_item of the scope chain being walked',
+    ('from_overload', 'Cell'): 'Overload::Static.cell_idx is the index returned by cells.ipush when the overload was added to this scope',
+    ('index', 'T'): 'IPush::index forwards to Vec::index: judged at the callers above',
+    ('apply_escapes', 'Captures'): 'groups 0 and 1 exist in every match of the literal pattern \\\\(u\\{.+?\\}|.) (group 1 is not optional)',
+    ('item_index', 'Captures'): 'group 1 exists in every match of the literal pattern ^item(0|[1-9][0-9]*)$',
+}
+
+
+def index_inventory(ctx, r7, R):
+    mir = ctx.mir
+    from .lib import guards
+    sites = []
+    for bid in sorted(R):
+        b = mir.by_id[bid]
+        if not b.file.startswith('src/') or b.file.startswith('src/builtin/') and 'include' not in b.file and not b.nid.startswith('builtin::'):
+            pass
+        if b.file not in COMPILE_FILES:
+            continue
+        for bb, tm in b.calls():
+            nm = strip_generics(tm.get('decl') or tm.get('callee') or '')
+            if nm in ('std::ops::Index::index', 'std::ops::IndexMut::index_mut'):
+                tys = tm.get('argtys') or ['', '']
+                ity = tys[1] if len(tys) > 1 else ''
+                if ity not in ('usize', 'I') and not ity.startswith('&'):
+                    continue   # ranges: v[..] / v[a..b] are judged by the slice rules of their element accesses
+                if ity.startswith('&'):
+                    continue   # map[&key]
+                sites.append((b, bb, 'call', tys[0]))
+        for i, bl in enumerate(b.blocks):
+            tm = bl['term']
+            if tm['k'] == 'assert' and not bl.get('cleanup') and 'BoundsCheck' in str(tm.get('msg')):
+                # the indexed place's type: the collection operand of the Len / PtrMetadata feeding the assert
+                sites.append((b, i, 'assert', ''))
+    for b, bb, kind, cty in sites:
+        fn = b.nid.split('::{closure')[0].split('::')[-1]
+        m = re.findall(r'([A-Za-z_][A-Za-z_0-9]*)(?:<[^<>]*>)?>*\s*$', re.sub(r"^&(mut )?('\w+ )?", '', cty).rstrip('>'))
+        inner = re.sub(r'^.*?(?:Vec|IPush)<', '', cty)
+        elem = re.split(r'[<,>]', inner)[0].split('::')[-1].strip('() ') if cty else 'slice'
+        if 'regex::Captures' in cty:
+            elem = 'Captures'
+        if elem.startswith('('):
+            elem = elem.strip('(')
+        if 'OverloadWithForwardReq' in cty:
+            elem = 'OverloadWithForwardReq'
+        if elem == 'Arc' or 'std::sync::Arc<xtype::XType>' in cty:
+            elem = 'XType'
+        guarded = False
+        if kind == 'assert':
+            guarded = guards.index_guarded(b, bb) if hasattr(guards, 'index_guarded') else False
+        reason = INDEX_OK.get((fn, elem))
+        ok = guarded or reason is not None
+        r7.inst({'body': b.nid, 'site': mirq.site(b, bb), 'collection': cty[:70] or 'slice (BoundsCheck)', 'guarded': guarded, 'listed': reason is not None}, ok=ok, kind=(b.nid, bb))
+        if reason is not None and not guarded:
+            r7.exempted('%s / %s' % (fn, elem), reason)
+        if not ok:
+            r7.fail('%s/index/%s' % (b.nid, elem), mirq.site(b, bb),
+                    'a position-indexed access in compile-phase code is neither dominated by a comparison of the index with the length of the same collection nor listed with the invariant that bounds it: source text can make the compiler panic (index out of bounds)')
+    r7.need(12)
+
+
 def run(ctx):
     mir = ctx.mir
     ast = ctx.ast
@@ -394,3 +462,9 @@ def run(ctx):
             if not okr:
                 r6.fail('%s/id-use' % b.nid, mirq.site(b, bb), 'a scope id (process-global counter value) is used for something other than an equality test')
     r6.need(3)
+
+    # ---------------- R12.7 index inventory of the compile phase: every position-indexed access in a body reachable from
+    # feed_file is guarded by a comparison with the length of the same collection, or listed with the invariant that makes
+    # the index valid (one reason per site; a new unlisted site is reported)
+    r7 = ctx.rule('R12.7', 'indexed accesses in compile-phase code are guarded by a length test or listed with the invariant that bounds the index')
+    index_inventory(ctx, r7, R)
